@@ -36,9 +36,11 @@ def units(tier, seed):
     for name in ("bp", "bp_taylor", "minsum", "minsum_normalized", "wagner", "rm_soft"):
         out.append({"unit": f"clean:{name}", "kind": "clean", "decoder": name, "cost": 3})
     out.append({"unit": "wagner-ml", "kind": "wagner", "cost": 3})
-    n_tree = 6 if tier == "quick" else 48
+    n_tree = 16 if tier == "quick" else 64
     for i in range(n_tree):
         out.append({"unit": f"tree#{i}", "kind": "tree", "idx": i, "cost": 3})
+    for j, degs in enumerate(softdec.PATTERN_TREES):
+        out.append({"unit": f"chain-tree{degs}", "kind": "tree", "idx": 1000 + j, "H": softdec.chain_tree(degs), "cost": 3})
     return out
 
 
@@ -156,7 +158,7 @@ def run_unit(ctx, u):
 
     if kind == "tree":
         trng = random.Random(f"c10-tree-{ctx.seed}-{u['idx']}")
-        Hs = softdec.tree_codes(trng, ctx.tier, 1)
+        Hs = [u["H"]] if "H" in u else softdec.tree_codes(trng, ctx.tier, 1)
         if not Hs:
             ctx.skip("no tree generated")
             return
